@@ -6,8 +6,12 @@ Open Scope Z_scope.
 
 (** * Result monad.  There is deliberately no constructor for Python-internal exceptions. *)
 Inductive err :=
-| ENOENT | ENOTDIR | EISDIR | EEXIST | ENOTEMPTY | EROOT | ENOSPC | E2BIG | EROFS
-| ENAMETOOLONG | EINVAL | EPYFAT | EFUEL | EDESTEXISTS | EIO.
+(* fs.errors classes *)
+| RNF | DEXP | FEXP | DEXISTS | FEXISTS | DNOTEMPTY | RROOT | DESTEX
+(* PyFATException by errno *)
+| ENOENT | ENOTDIR | ENOSPC | E2BIG | EROFS | EINVAL | ENAMETOOLONG | EEXIST | EPYFAT
+(* Python IOError / ValueError raised deliberately by FatIO; model-only: out of fuel, short device *)
+| IOERR | VALERR | EFUEL | EIO.
 Inductive res (A:Type) := Ok (a:A) | Err (e:err).
 Arguments Ok {A} a.
 Arguments Err {A} e.
